@@ -129,7 +129,8 @@ def oracle_network(c, stats):
         del red["clusters"][ci]["obs"][oi]
         red["clusters"][ci]["cov"] = None
         red["clusters"] = [cl for cl in red["clusters"] if cl["obs"]]
-        if not (c20.well_posed_free(red) if net.get("free") else gen_net.is_determined(red)):
+        # (with a margin: what is left must be clearly determined, weak remainders are the subject of C20)
+        if not (c20.well_posed_free(red) if net.get("free") else gen_net.is_determined(red, tol=0.02)):
             stats.label("discarded_ill_posed_after_exclusion")
             return []
     if net.get("free"):
